@@ -58,7 +58,16 @@ def run(cx):
         if cx.pid not in detect:
             continue
         jobs.append(("mutant", os.path.basename(d), os.path.join(d, "patch.diff"), detect[cx.pid]))
-    for p in sorted(glob.glob(os.path.join(VERIF, "selftest", "benign", "*.patch"))):
+    benign = sorted(glob.glob(os.path.join(VERIF, "selftest", "benign", "*.patch")))
+    full = os.environ.get("SASV_SELFTEST_FULL") == "1"
+    if not full:
+        # bounded by default (a cold cache costs ~3.5 min per variant): the 8 newest seeds of the property and 4 benign
+        # rewrites chosen by rotation on the property number; SASV_SELFTEST_FULL=1 or tools/regress.py run everything
+        jobs = jobs[-8:]
+        k = int(cx.pid[1:]) if cx.pid[1:].isdigit() else 0
+        benign = [benign[(k * 4 + i) % len(benign)] for i in range(min(4, len(benign)))] if benign else []
+    res["selection"] = "full corpus" if full else "8 newest seeds of the property + 4 benign rewrites (rotation); full corpus: SASV_SELFTEST_FULL=1 or tools/regress.py"
+    for p in benign:
         jobs.append(("benign", os.path.basename(p), p, None))
     from concurrent.futures import ThreadPoolExecutor
     with ThreadPoolExecutor(max_workers=int(os.environ.get("SASV_SELFTEST_JOBS", "4"))) as ex:
